@@ -129,3 +129,32 @@ Definition inst_server_tls : option tlscfg := apply_assignments gen_DefaultServe
 Definition inst_client_tls : option tlscfg := apply_assignments gen_DefaultClientTLSConfig zero_client_cfg.
 Definition inst_server_tls_from (c0 : tlscfg) : option tlscfg := apply_assignments gen_DefaultServerTLSConfig c0.
 Definition inst_client_tls_from (c0 : tlscfg) : option tlscfg := apply_assignments gen_DefaultClientTLSConfig c0.
+
+(* ---------- fixed-length primitives: the model's layout table against what decode_core.go / encode_core.go say ---------- *)
+Definition fixed_len (k : kind) : option N :=
+  match k with
+  | KInt | KEnum | KDur => Some 4
+  | KLong | KBool | KTime => Some 8
+  | KBytes | KStr => None
+  end.
+
+(* which read* / write* function handles which kind *)
+Definition prim_functions : list (string * kind) :=
+  [("readInteger", KInt); ("writeInteger", KInt); ("readLongInteger", KLong); ("writeLongInteger", KLong);
+   ("readEnum", KEnum); ("writeEnum", KEnum); ("readBool", KBool); ("writeBool", KBool);
+   ("readTime", KTime); ("writeTime", KTime); ("readDuration", KDur); ("writeDuration", KDur)].
+
+Definition layout_row_ok (row : string * string * N) : bool :=
+  let '(fn, ty, len) := row in
+  match assoc fn prim_functions with
+  | Some k => match const_value ty, fixed_len k with
+              | Some code, Some l => (code =? type_code k) && (len =? l)
+              | _, _ => false
+              end
+  | None => false
+  end.
+
+(* every row the translator found is one the model knows and agrees with, and every function of the table was found *)
+Definition prim_layout_b : bool :=
+  forallb layout_row_ok gen_prim_layout &&
+  forallb (fun p => existsb (fun row => String.eqb (fst (fst row)) (fst p)) gen_prim_layout) prim_functions.
